@@ -5,6 +5,7 @@ package main
 
 import (
 	"fmt"
+	"go/constant"
 	"go/types"
 	"os"
 	"path/filepath"
@@ -141,6 +142,75 @@ func loadProg(dir string, cs *ContractSet) (*Prog, error) {
 		}
 	}
 	return p, nil
+}
+
+// checkRegistries compares every declared registry with the constant Register*
+// calls found in the package initialisers of the current source tree.
+func (p *Prog) checkRegistries() []string {
+	var errs []string
+	for _, name := range sortedKeys(p.CS.Registries) {
+		r := p.CS.Registries[name]
+		if moduleOfGlobal(name) != filepath.Base(p.Root) && !(moduleOfGlobal(name) == "" && p.ModPath == "github.com/fido-device-onboard/go-fdo") {
+			continue
+		}
+		got := map[int64]bool{}
+		for fn := range ssautil.AllFunctions(p.SSA) {
+			if !strings.HasPrefix(fn.Name(), "init") || fn.Pkg == nil {
+				continue
+			}
+			for _, b := range fn.Blocks {
+				for _, in := range b.Instrs {
+					c, ok := in.(*ssa.Call)
+					if !ok {
+						continue
+					}
+					sc := c.Common().StaticCallee()
+					if sc == nil || p.funcName(sc) != r.Via || len(c.Common().Args) == 0 {
+						continue
+					}
+					if k, ok := c.Common().Args[0].(*ssa.Const); ok && k.Value != nil {
+						if v, ok := constant.Int64Val(constant.ToInt(k.Value)); ok {
+							got[v] = true
+						}
+					}
+				}
+			}
+		}
+		want := map[int64]bool{}
+		for _, k := range r.Keys {
+			want[k] = true
+		}
+		if len(got) != len(want) {
+			errs = append(errs, fmt.Sprintf("%s: registry %s: the source registers %v, the contract lists %v", r.Line, name, keysOf(got), keysOf(want)))
+			continue
+		}
+		for k := range want {
+			if !got[k] {
+				errs = append(errs, fmt.Sprintf("%s: registry %s: the source registers %v, the contract lists %v", r.Line, name, keysOf(got), keysOf(want)))
+				break
+			}
+		}
+	}
+	return errs
+}
+
+func moduleOfGlobal(name string) string {
+	switch {
+	case strings.HasPrefix(name, "fsim."):
+		return "fsim"
+	case strings.HasPrefix(name, "sqlite."):
+		return "sqlite"
+	}
+	return ""
+}
+
+func keysOf(m map[int64]bool) []int64 {
+	var ks []int64
+	for k := range m {
+		ks = append(ks, k)
+	}
+	sort.Slice(ks, func(i, j int) bool { return ks[i] < ks[j] })
+	return ks
 }
 
 // ---------------------------------------------------------------------------
